@@ -42,7 +42,7 @@ theorem prec_le (t : PT) : t.prec ≤ 12 := by
   | cond => simp [PT.prec]
   | comma => simp [PT.prec]
 
-/-- an operand printed for a position that admits levels ≤ `k` is derived at that position -/
+/-- an operand printed for a position that allows levels ≤ `k` is derived at that position -/
 theorem atLvl_derives {t : PT} (h : Derives (ntOf t.prec) (unparse t) t) (k : Nat) : Derives (ntOf k) (atLvl k t (unparse t)) t := by
   unfold atLvl
   by_cases hk : t.prec ≤ k
